@@ -62,6 +62,9 @@ Definition classified : list (string * site_class) :=
     ("os WithEnvironment env #0", CopyByKey);
     ("os WithMounts mounts #0", CopyByKey);
     ("vm (*VirtualMachine).Clone vm.loadedCode #0", CopyByKey);
+    (* every loaded function code of the main program gets the same new globals array: an update per key, the
+       visiting order cannot be observed *)
+    ("vm (*VirtualMachine).reloadCode vm.loadedCode #0", CopyByKey);
     ("vm (*VirtualMachine).Clone vm.modules #0", CopyByKey);
     ("vm (*VirtualMachine).applyOptions vm.globals #0", CopyByKey);
     ("vm WithGlobals globals #0", CopyByKey);
